@@ -611,6 +611,12 @@ class World:
         self.env.__exit__()
 
 
+def eff_enabled(case: dict) -> bool:
+    """the agent gate's first conjunct: perf.enabled (the master switch of every perf.* feature) AND
+    perf.parallel.enabled — `_agents_parallel_enabled` after fix "agent-level parallel driver honours perf.enabled"."""
+    return bool(case["enabled"]) and case.get("perf_enabled", True) is True
+
+
 def make_state(case: dict):
     agents, gba = build_agent_maps(case["agents"])
     return SNS(graphs={g: v for g, v in case["world"]["graphs"]}, version=case["world"]["version"], agents=agents, graphs_by_agent=gba)
@@ -618,7 +624,7 @@ def make_state(case: dict):
 
 def make_ctx(case: dict, enabled: bool, agents_flag: bool):
     cfg = {"perf": {"enabled": True, "parallel": {"enabled": enabled, "agents": agents_flag, "max_workers": case["mw"]}}}
-    pe = case.get("perf_enabled", True)   # perf.enabled is NOT part of the agent gate (only perf.parallel.* is)
+    pe = case.get("perf_enabled", True)   # perf.enabled IS part of the agent gate (master switch), see eff_enabled
     if pe is None:
         del cfg["perf"]["enabled"]
     else:
@@ -717,7 +723,7 @@ def run_real(case: dict, mode: str) -> dict:
             out.update(w.path_taken())
             out["applies"] = [list(x) for x in w.apply_trace]
             out["clone_bad"] = sorted(set(w.clone_bad))
-            par_on = bool(ctx.cfg["perf"]["parallel"]["enabled"] and ctx.cfg["perf"]["parallel"]["agents"] and case["mw"] > 1)
+            par_on = bool(eff_enabled(case) and ctx.cfg["perf"]["parallel"]["agents"] and case["mw"] > 1)
             out["computed"] = [list(t) for t in (asked if (kind == "perm" and par_on) else w.computed)]
             return out
     finally:
@@ -912,7 +918,7 @@ class BatchComp(Component):
                 scripts.append({"agent": aid, "text": text, "agentV": enc_value(aid, table), "turnV": enc_value(case["turn"], table),
                                 "turn": turn_rank(case["turn"]), "slice": case["slice"],
                                 "reads": [], "logs": [], "deltas": [], "line": ""})
-        rq = {"c": "c10.batch", "ci_env": case["ci_env"], "limit": case["limit"], "agents": ag, "gba": gb, "enabled": case["enabled"],
+        rq = {"c": "c10.batch", "ci_env": case["ci_env"], "limit": case["limit"], "agents": ag, "gba": gb, "enabled": eff_enabled(case),
               "agents_flag": case["agents_flag"], "mw": case["mw"], "turn": turn_rank(case["turn"]), "slice": case["slice"],
               "world": case["world"], "tasks": case["tasks"], "scripts": scripts}
         return rq, table
@@ -1006,7 +1012,7 @@ class BatchComp(Component):
         if parr["ok"] and unl["ok"] and key_const(case, parr["computed"]):
             (a, b), paths = self._tokenise([parr, unl])
             reqs.append(("staging_limit_invisible", {"c": "c10.same", "a": a, "b": b, "paths": paths}))
-        if distinct and case["enabled"] and case["agents_flag"] and case["mw"] > 1:
+        if distinct and eff_enabled(case) and case["agents_flag"] and case["mw"] > 1:
             ag, gb = resolver_inputs(case["agents"])
             reqs.append(("computed_agents_are_a_valid_selection",
                          {"c": "c10.select.mon", "ids": [a for a, _ in case["tasks"]], "agents": ag, "gba": gb, "mw": case["mw"],
@@ -1017,7 +1023,7 @@ class BatchComp(Component):
         res = []
         parr, seq, unl, perm = impl_out["par"], impl_out["seq"], impl_out["unl"], impl_out["perm"]
         distinct = len({a for a, _ in case["tasks"]}) == len(case["tasks"])
-        par_on = case["enabled"] and case["agents_flag"] and case["mw"] > 1
+        par_on = eff_enabled(case) and case["agents_flag"] and case["mw"] > 1
         if parr["err"] not in (None, "backpressure"):
             res.append(("driver_raised", False, parr["err"]))
             return res
@@ -1072,7 +1078,7 @@ class BatchComp(Component):
     def tags(self, case, impl_out):
         t = set()
         parr = impl_out["par"]
-        par_on = case["enabled"] and case["agents_flag"] and case["mw"] > 1
+        par_on = eff_enabled(case) and case["agents_flag"] and case["mw"] > 1
         t.add("style:" + ("contract" if contract_ok(case, parr["computed"]) else "off_contract"))
         if not par_on:
             t.add("gate_off")
@@ -1156,7 +1162,7 @@ class LimitSweepComp(Component):
                 for f in fields:
                     if f[0] == "pad":
                         f[1] = min(int(f[1]), rng.choice([5, 20, 60]))
-        c["enabled"], c["agents_flag"], c["mw"] = True, True, 8
+        c["enabled"], c["agents_flag"], c["mw"], c["perf_enabled"] = True, True, 8, True
         c["stride"] = rng.choice([1, 1, 2, 3])
         return c
 
@@ -1260,7 +1266,7 @@ class HistoryComp(Component):
             base = b.gen(rng, i)
             if base["style"] in ("contract", "overlap") and len(base["tasks"]) >= 2:
                 break
-        base["enabled"], base["agents_flag"], base["mw"] = True, True, rng.choice([4, 8])
+        base["enabled"], base["agents_flag"], base["mw"], base["perf_enabled"] = True, True, rng.choice([4, 8]), True
         nb = rng.choice([2, 2, 3])
         batches = []
         for k in range(nb):
